@@ -281,10 +281,7 @@ package ipfscluster
 //@ interface Consensus.Peers(ctx)
 //@   modifies nothing
 
-//@ interface state.ReadOnly.List(ctx)
-//@   ensures err == nil ==> forall i int :: 0 <= i && i < len(res) ==> res[i] != nil && fresh(res[i]) && haskey(pinset, res[i].Cid) && *res[i] == pinset[res[i].Cid]
-//@   modifies nothing
-
+// (state.ReadOnly.List: see state/contracts_verif.go)
 // the peers the closeness test compares this peer against: trusted members other than itself and the excluded (failed) peer
 //@ func (c *Cluster) getTrustedPeers
 //@   property C10
